@@ -67,20 +67,60 @@ def walk_or_raise(rel, what, node=None):
         raise Violation("ill-formed-tree", f"[{bad[0]}] {bad[1]}; produced by {what}", code=bad[0], node=node)
 
 
-def check_noops(rel, what):
+def check_noops(rel, what, env=None, pick=0):
     from lsst.daf.relation import ColumnError, EngineError
 
-    for name, call in (
+    calls = [
         ("with_only_columns(all columns)", lambda: rel.with_only_columns(set(rel.columns))),
         ("sorted([])", lambda: rel.sorted([])),
         ("transferred_to(own engine)", lambda: rel.transferred_to(rel.engine)),
-    ):
+    ]
+    if env is not None:
+        # the same no-op requests with preferred-engine options: there is nothing to insert anywhere
+        pe = env.engines[pick % 3]
+        for bits in (pick % 8, (pick // 8) % 8):
+            o = dict(preferred_engine=pe, backtrack=bool(bits & 1), transfer=bool(bits & 2), require_preferred_engine=bool(bits & 4))
+            label = f"preferred={pe} " + " ".join(f"{k}={v}" for k, v in o.items() if k != "preferred_engine")
+            calls.append((f"with_only_columns(all columns, {label})", lambda o=o: rel.with_only_columns(set(rel.columns), **o)))
+            calls.append((f"sorted([], {label})", lambda o=o: rel.sorted([], **o)))
+    for name, call in calls:
         try:
             out = call()
         except Exception as e:
             raise Violation("noop-raised", f"{name} raised {type(e).__name__}: {e}; relation {str(rel)[:200]} from {what}", noop=name)
         if out is not rel:
             raise Violation("noop-not-identity", f"{name} returned a different object ({str(out)[:160]}) for {str(rel)[:160]} from {what}", noop=name)
+
+
+def cross_engine_requests(prog, rels, leaves, stats):
+    """Binary requests whose operands live in different engines: they must raise EngineError / ColumnError (or the
+    row-order-loss error), or - when backtracking or a transfer can reconcile them - return a well-formed tree."""
+    built = [(n, rels[id(n)]) for n in walk(prog) if id(n) in rels]
+    tried = 0
+    for i, (na, a) in enumerate(built):
+        for nb, b in built[i + 1 :]:
+            if a.engine is b.engine or tried >= 4:
+                continue
+            if a.is_join_identity or b.is_join_identity:
+                continue
+            shared = set(a.columns) & set(b.columns)
+            if any(not t.is_key for t in shared):
+                continue
+            tried += 1
+            requests = [("join", lambda: a.join(b, backtrack=False, transfer=False)), ("join(default options)", lambda: a.join(b))]
+            if set(a.columns) == set(b.columns):
+                requests.append(("chain", lambda: a.chain(b)))
+            for name, call in requests:
+                what = f"{name} of {fmt(na, leaves)} [{a.engine}] with {fmt(nb, leaves)} [{b.engine}]"
+                try:
+                    out = call()
+                except Exception as e:
+                    if acceptable(e):
+                        stats.c["cross-engine:refused"] += 1
+                        continue
+                    raise Violation("call-raised", f"{what}: {type(e).__name__}: {str(e)[:200]}", sig=exc_sig(e))
+                walk_or_raise(out, what, None)
+                stats.c["cross-engine:accepted-well-formed"] += 1
 
 
 def acceptable(e):
@@ -118,8 +158,9 @@ def run_case(case, stats):
                 if rel is None:
                     continue
                 walk_or_raise(rel, f"factory calls of {fmt(node, leaves)}", node)
-                check_noops(rel, fmt(node, leaves))
+                check_noops(rel, fmt(node, leaves), env, pick=sum(map(ord, fmt(node, leaves))) % 997)
                 stats.c["trees_walked"] += 1
+            cross_engine_requests(prog, rels, leaves, stats)
             if id(prog) in rels:
                 proc = make_processor(env)
                 try:
